@@ -21,7 +21,9 @@ RULE = ('exhaustive: 29 slots x boundary int32 values; {-1..6}^2 motor requests 
         '(m1, m2, mode 1..5, auto-enable); nicknames with trimmed length 13..16 x whitespace runs of length 0..9 on either side '
         '(raw length up to 30) and random ones; random operation sequences (<= 30 ops) over random '
         'prior boards; a case is non-trivial when it writes to the board; distinct by (prior state, ops)')
-TRUSTED = ['Model/C16.lean boardStep/parseReq/boardRecv = "a board that implements the documented SL/QL/ST/QT/EM/QE/CU,50 '
+TRUSTED = ['translator/pyio2lean.py + PyObj runtime (regenerated methods; validated by the stream at the end of this run: '
+           'every in-domain history replayed on Gen.* with the board\'s replies as script, compared call by call)',
+           'Model/C16.lean boardStep/parseReq/boardRecv = "a board that implements the documented SL/QL/ST/QT/EM/QE/CU,50 '
            'commands" (EBB command reference, firmware 3.x future syntax); cross-checked here against the '
            'independent PyBoard',
            'conforming link: every write reaches the board, the next readline returns its reply line',
@@ -202,15 +204,19 @@ class FakePort:
         self.board = board
         self.pending = []
         self.written = []
+        self.nreads = 0
+        self.replies = []       # every reply the board gave, in order (b'' = none)
 
     def write(self, data):
         self.written.append(data)
         r = self.board.handle(bytes(data))
+        self.replies.append(r)
         if r:
             self.pending.append(r)
         return len(data)
 
     def readline(self):
+        self.nreads += 1
         return self.pending.pop(0) if self.pending else b''
 
     def reset_input_buffer(self):
@@ -584,9 +590,63 @@ def run_case(ctx, case, tag, in_domain=True):
                   nontrivial=any(o[0] in ('w32', 'vw', 'me', 'wn') for o in ops))
     if ctx.driver is not None:
         lb = LeanBoard(ctx.driver, b0)
-        vals, exc, pyf, written, _e = run_real(py0, lb, ops)
+        percall = []
+        marks = {'w': 0, 'r': 0}
+
+        def hook(k, op, v, e):
+            port = e.port
+            if port is None:
+                return
+            percall.append({'ret': v, 'written': [w.decode('latin-1') for w in port.written[marks['w']:]],
+                            'nreads': port.nreads - marks['r'], 'err': e.err, 'name': e.name})
+            marks['w'], marks['r'] = len(port.written), port.nreads
+        vals, exc, pyf, written, e = run_real(py0, lb, ops, hook)
         rec['A'] = (lb.state(), vals, exc, pyf, written)
+        if in_domain and exc is None and e.port is not None and len(percall) == len(ops):
+            rec['gen'] = (percall, [r.decode('latin-1') for r in e.port.replies])
     return rec
+
+
+GEN_FUEL = 30
+GEN_METHOD = {'vw': 'var_write', 'vr': 'var_read', 'w32': 'var_write_int32', 'r32': 'var_read_int32',
+              'me': 'motors_enable', 'mq': 'motors_query_enabled', 'wn': 'write_nickname', 'qn': 'query_nickname'}
+
+
+def gen_line(rec):
+    """the same history for the SOURCE-REGENERATED methods (`ebb3gen run`, Drv/Ebb3Gen.lean; Gen/EBB3_*.lean are regenerated
+    from the current source on every run). The port script handed to them is what the co-simulated Lean board answered
+    in run A, reply by reply (= `boardReads` of the theorems `C16_gen_*`); every write succeeds."""
+    from . import ebb3_fake as F
+    py0, _b0, ops = rec['case']
+    _percall, replies = rec['gen']
+    if any(r == '' for r in replies):
+        return None
+    state = F.State(port=True, err=None, name=py0[2])
+    rd = '.' if not replies else ';'.join('L' + F.enc_str(r) for r in replies)
+    calls = [(GEN_METHOD[o[0]], list(o[1:])) for o in ops]
+    return ' '.join(['ebb3gen', 'run', str(GEN_FUEL)] + state.tokens() + [rd, '.'] + [F.enc_call(c) for c in calls])
+
+
+def compare_gen(ctx, rec, answer):
+    """validation stream: the regenerated methods must do exactly what the real methods did on the co-simulated board —
+    value, bytes written, reads consumed, err, name — call by call"""
+    from . import ebb3_fake as F
+    py0, b0, ops = rec['case']
+    inp = {'py': py_str(py0), 'board': board_str(b0), 'ops': [op_str(o) for o in ops], 'tag': rec['tag']}
+    percall, _replies = rec['gen']
+    outs = [] if answer == '' else answer.split(' | ')
+    for k, r in enumerate(percall):
+        wr = '.' if not r['written'] else ';'.join(F.enc_str(t) for t in r['written'])
+        mine = ' '.join(['V' + F.canon(r['ret']), wr, str(r['nreads']), '1', F.opt(r['err']), '~', '~', F.opt(r['name']),
+                         '~', '~'])
+        o = outs[k] if k < len(outs) else 'MISSING'
+        key = 'gen:same' if mine == o else 'gen:differs'
+        ctx.paths[key] = ctx.paths.get(key, 0) + 1
+        if mine != o:
+            ctx.disagree(f'regenerated method Gen.{GEN_METHOD[ops[k][0]]} (translator/pyio2lean.py) vs implementation on the '
+                         f'co-simulated board: call {k} differs', inp, mine, o)
+            return False
+    return True
 
 
 def model_lines(rec):
@@ -742,6 +802,14 @@ def run(ctx):
         outs = ctx.driver.batch(lines)
         for k, r in enumerate(recs):
             compare(ctx, r, outs[2 * k], outs[2 * k + 1] if r['in_domain'] else None)
+        # ---- validation stream: the SOURCE-REGENERATED methods on the scripts the co-simulated board produced ----
+        gjobs = [(r, gen_line(r)) for r in recs if 'gen' in r]
+        gjobs = [(r, g) for (r, g) in gjobs if g is not None]
+        gouts = ctx.driver.batch([g for (_r, g) in gjobs])
+        for (r, _g), ans in zip(gjobs, gouts):
+            compare_gen(ctx, r, ans)
+        ctx.notes.append(f'regenerated-code stream: {len(gjobs)} histories replayed on Gen.EBB3_* / Gen.EBBMotionWrap_* '
+                         f'({ctx.paths.get("gen:same", 0)} calls identical, {ctx.paths.get("gen:differs", 0)} differing)')
     else:
         ctx.notes.append('driver missing: property oracle ran on the independent Python board only')
     missing = [p for p in REQUIRED_PATHS if not ctx.paths.get(p)]
